@@ -18,11 +18,12 @@ BUDGET = {'quick': 12000, 'thorough': 200000}
 WALL = {'quick': 45, 'thorough': 1500}
 RULE = ('one trash-empty [DAYS] per case over a trash whose entries have dates at now-DAYS+delta '
         '(delta in 0, +-1 s, +-1 day, year 1, future), malformed/duplicated/missing dates, several trash dirs; '
-        'now from the simulated clock (with microseconds) or TRASH_DATE; non-trivial = at least one entry on each '
+        'now from the simulated clock (local time with microseconds, on a machine whose UTC offset is 0, +1 h, -5 h, +5:30, +9:30, +14 h or -12 h) or TRASH_DATE; non-trivial = at least one entry on each '
         'side of the threshold or an entry exactly on it; distinct = (DAYS, clock source, sorted multiset of deltas)')
 ASSUMPTIONS = ['DeletionDate values that strptime accepts but the spec format does not (single-digit fields) are not generated']
 PROBES = ['removed', 'kept', 'exactly-on-threshold', 'one-second-older', 'one-second-younger', 'undated-kept',
-          'orphan-purged', 'trash_date_env', 'sim_clock', 'volume-trash-entry', 'duplicate-date-lines', 'far-past', 'future']
+          'orphan-purged', 'trash_date_env', 'sim_clock', 'volume-trash-entry', 'duplicate-date-lines', 'far-past', 'future',
+          'non-utc-zone']
 TECHNIQUE = 'deterministic simulation with a scripted clock; threshold oracle on exact datetimes'
 LEVEL_TEXT = ('seeded exploration of (DAYS, now, deletion date) with dates placed on and around the threshold, judged by exact '
               'datetime arithmetic on the clock values the command actually read')
@@ -100,7 +101,9 @@ def gen(rng):
         'world': {'mounts': L['mounts'], 'steps': steps},
         'procs': [{'argv': argv, 'env': env, 'cwd': '/', 'uid': uid}],
         'dirsalt': rng.randrange(1 << 30),
-        'clock': {'start': now.strftime('%Y-%m-%dT%H:%M:%S.%f'), 'tick_us': rng.choice([0, 0, 137, 400000])},
+        'clock': {'start': now.strftime('%Y-%m-%dT%H:%M:%S.%f'), 'tick_us': rng.choice([0, 0, 137, 400000]),
+                  # the simulated machine's zone: DeletionDate values are local times, so must be the 'now' they are compared with
+                  'utcoffset_s': rng.choice([0, 3600, -18000, 19800, 34200, 50400, -43200])},
     }
 
 
@@ -112,6 +115,8 @@ def check(sim, case, st):
     snap0 = sim.snap()
     bag0 = OR.scan(sim, snap0, env, uid, mounts)
     orph0 = [(T, N) for T, _b, _k in MB.usable_trash_dirs(snap0, env, uid, mounts) for N in MB.orphans(snap0, T)]
+    from sim import proc as P
+    local0 = P.CLOCK.now
     r = sim.run(spec)
     st.sims += 1
     st.ops += r.nops
@@ -127,16 +132,24 @@ def check(sim, case, st):
     # which 'now' did the command use?
     td = env.get('TRASH_DATE')
     nows = None
+    src = 'clock'
     if td is not None:
         try:
             fixed = _dt.datetime.strptime(td, '%Y-%m-%dT%H:%M:%S')
             nows = (fixed, fixed)
+            src = 'env'
             st.probes['trash_date_env'] += 1
         except ValueError:
             pass
     if nows is None and r.clock:
         nows = (min(r.clock), max(r.clock))
         st.probes['sim_clock'] += 1
+    elif nows is None:
+        # the command never asked the time (it can only have stopped early): the local time at which it ran still decides
+        nows = (local0, local0)
+        st.probes['no-clock-reading'] += 1
+    if case.get('clock', {}).get('utcoffset_s'):
+        st.probes['non-utc-zone'] += 1
     deltas = []
     for e in bag0:
         gone = OR.pair_gone(snap1, e)
@@ -158,12 +171,6 @@ def check(sim, case, st):
                             % (e, days, e.raw)))
             else:
                 st.probes['undated-kept'] += 1
-            continue
-        if nows is None:
-            # the command never read a clock: only possible when it crashed
-            # before judging, then nothing may be gone
-            if gone:
-                res.append(('C10/removed-without-clock', 'entry %r removed though no clock value was read' % (e,)))
             continue
         try:
             lim_lo = nows[0] - _dt.timedelta(days=days)
@@ -190,11 +197,11 @@ def check(sim, case, st):
         if e.kind != 'home':
             st.probes['volume-trash-entry'] += 1
         if gone and not may:
-            res.append(('C10/removed-too-young/%s' % ('env' if td else 'clock'),
+            res.append(('C10/removed-too-young/%s' % src,
                         'trash-empty %d removed %r although its date %s is not earlier than now-DAYS (now in [%s, %s])'
                         % (days, e, e.date, nows[0], nows[1])))
         elif not gone and must:
-            res.append(('C10/kept-too-old/%s' % ('env' if td else 'clock'),
+            res.append(('C10/kept-too-old/%s' % src,
                         'trash-empty %d kept %r although its date %s is earlier than now-DAYS = %s (exit %s)\nstderr: %s'
                         % (days, e, e.date, lim_lo, r.exit, r.errs[-300:])))
         st.probes['removed' if gone else 'kept'] += 1
@@ -206,7 +213,7 @@ def check(sim, case, st):
             else:
                 st.probes['orphan-purged'] += 1
     if deltas and (min(deltas) < 0 <= max(deltas) or 0 in deltas):
-        st.distinct.add((days, 'env' if td else 'clock', tuple(sorted(deltas))))
+        st.distinct.add((days, src, tuple(sorted(deltas))))
     st.simtime += 0
     seen, out = set(), []
     for s, m in res:
